@@ -23,8 +23,8 @@ import (
 // white-space variants format equal, shape predicate (+ depth) on Go's output,
 // `evy fmt -c` through the real binary.
 
-// buildEvy builds the evy CLI from /repo into a temporary directory.
-func buildEvy() (bin string, cleanup func(), err error) {
+// fmBuildEvy builds the evy CLI from /repo into a temporary directory.
+func fmBuildEvy() (bin string, cleanup func(), err error) {
 	dir, err := os.MkdirTemp("", "evybin")
 	if err != nil {
 		return "", nil, err
@@ -43,24 +43,24 @@ func buildEvy() (bin string, cleanup func(), err error) {
 	return bin, func() { os.RemoveAll(dir) }, nil
 }
 
-type binResult struct {
+type fmBinResult struct {
 	Exit    int
 	Stdout  string
 	Stderr  string
 	Timeout bool
 }
 
-func runBin(bin string, stdin string, timeout time.Duration, args ...string) binResult {
+func runBin(bin string, stdin string, timeout time.Duration, args ...string) fmBinResult {
 	cmd := exec.Command(bin, args...)
 	cmd.Stdin = strings.NewReader(stdin)
 	var so, se bytes.Buffer
 	cmd.Stdout, cmd.Stderr = &so, &se
 	if err := cmd.Start(); err != nil {
-		return binResult{Exit: -1, Stderr: err.Error()}
+		return fmBinResult{Exit: -1, Stderr: err.Error()}
 	}
 	done := make(chan error, 1)
 	go func() { done <- cmd.Wait() }()
-	var res binResult
+	var res fmBinResult
 	select {
 	case err := <-done:
 		if ee, ok := err.(*exec.ExitError); ok {
@@ -304,7 +304,7 @@ func runC07(cfg Config, r *Result) {
 		return
 	}
 	defer model.Close()
-	bin, cleanup, err := buildEvy()
+	bin, cleanup, err := fmBuildEvy()
 	if err != nil {
 		r.Violate(Violation{Kind: "correspondence", Key: "evy-binary-build", Detail: err.Error()})
 	} else {
